@@ -7,6 +7,7 @@ import JubakoModel.Lemmas.DirFile
 import JubakoModel.Lemmas.FuncsBytes
 import JubakoModel.Lemmas.FuncsDir
 import JubakoModel.Lemmas.FuncsSearch
+import JubakoModel.Lemmas.FuncsStats
 
 namespace Jubako
 
@@ -164,5 +165,18 @@ theorem c02_window_is_source_window (offset count n k : Nat) :
   rw [gen_rangeGetEntry]
   unfold windowGet
   by_cases h : k < count <;> simp [h]
+
+/-- **The column statistics of the writer model are the source's**: `ValueCounter::process` folded over a
+    column and converted (`Option::from`) is `constantOf` — a column is stored as a default exactly when it
+    is not empty and all its values are equal — and `PropertySize::process` folded over a column and converted
+    (`ByteSize::from`) is `neededBytes (listMax column)`; both bodies, and the two enums, are translated from
+    `creator/directory_pack/schema/property.rs` on every run. -/
+theorem c02_column_statistics_are_source_statistics :
+    (∀ col : List Int,
+      Generated.valueCounterDefault (col.foldl Generated.valueCounterProcess Generated.SrcCounter.none) = constantOf col) ∧
+    (∀ col : List Nat,
+      Generated.propertySizeBytes ((col.map (fun (v : Nat) => (v : Int))).foldl Generated.propertySizeProcess (Generated.SrcSize.auto 0)) =
+        neededBytes (listMax col)) :=
+  ⟨gen_valueCounter, gen_propertySize⟩
 
 end Jubako
